@@ -161,7 +161,7 @@ func init() {
 	}
 }
 
-var c11Fields = []string{" dflt", "dflt ", "\tdflt\n", " ", "dflt", "my dflt", `d"q`, "ü", strings.Repeat("long_field_name_", 5), "AND", "5", "dflt", "dflt"}
+var c11Fields = []string{" dflt", "dflt ", "\tdflt\n", " ", "dflt", "my dflt", `d"q`, "ü", strings.Repeat("long_field_name_", 5), "AND", "5x", "dflt", "dflt"}
 
 // c11Context classifies where bare terms stand (for the histogram / non-triviality).
 func c11Context(toks []gen.Tok) (bare, fielded, unary bool) {
